@@ -18,3 +18,64 @@ Definition corr_case (c : content * list (Z * str) * str) : bool :=
 (* str.strip / join against CPython: (x, x.strip(), parts, "\n".join(parts)) *)
 Definition strip_case (c : str * str * list str * str) : bool :=
   let '(x, sx, parts, j) := c in str_eqb (strip x) sx && str_eqb (joinNL parts) j.
+
+From S2T Require Import C03.Extract C03.Docx.
+
+Fixpoint strs_eqb (a b : list str) : bool :=
+  match a, b with
+  | [], [] => true
+  | x :: a', y :: b' => str_eqb x y && strs_eqb a' b'
+  | _, _ => false
+  end.
+
+Definition optz_eqb (a b : option Z) : bool :=
+  match a, b with Some x, Some y => Z.eqb x y | None, None => true | _, _ => false end.
+
+Fixpoint blocks_eqb (a : list block) (b : list (str * option Z)) : bool :=
+  match a, b with
+  | [], [] => true
+  | x :: a', (t, ty) :: b' => str_eqb (b_text x) t && optz_eqb (b_type x) ty && blocks_eqb a' b'
+  | _, _ => false
+  end.
+
+Fixpoint slides_eqb (a : list (list block)) (b : list (list (str * option Z))) : bool :=
+  match a, b with
+  | [], [] => true
+  | x :: a', y :: b' => blocks_eqb x y && slides_eqb a' b'
+  | _, _ => false
+  end.
+
+(* _parse_slide_list_container on a generated record stream *)
+Definition ppt_slist_case (c : list ppt_event * list (list (str * option Z))) : bool :=
+  slides_eqb (parse_slide_list_container (fst c)) (snd c).
+
+Definition mk_blocks (l : list (list (str * option Z))) : list (list block) :=
+  map (map (fun b => mkBlock (fst b) (snd b))) l.
+
+(* _parse_ppt_document: (SlideListWithText containers, _parse_containers()["slides"], raw texts,
+   units of the resulting PptContent) *)
+Definition ppt_doc_case (T : ppt_tables)
+    (c : list (list ppt_event) * list (list (str * option Z)) * list str * list (Z * str)) : bool :=
+  let '(conts, cslides, raw, exp) := c in
+  units_eqb (ppt_units (parse_ppt_document T (extract_slide_list_texts conts) (mk_blocks cslides) raw)) exp.
+
+Definition norm_of (tbl : list (str * str)) (x : str) : str :=
+  match assoc x tbl with Some y => y | None => x end.
+
+(* rtf page splitting: (recorded regex normalisations, segments, parser.pages) *)
+Definition rtf_pages_case (c : list (str * str) * list str * list str) : bool :=
+  let '(tbl, segs, pages) := c in strs_eqb (rtf_split_pages (norm_of tbl) segs) pages.
+
+Definition mbox_case (c : str * list str) : bool := strs_eqb (split_mbox_messages (fst c)) (snd c).
+
+Fixpoint dunits_eqb (a : list dunit) (b : list (Z * str * list str * option Z)) : bool :=
+  match a, b with
+  | [], [] => true
+  | u :: a', (n, t, p, l) :: b' =>
+      Z.eqb (du_num u) n && str_eqb (du_text u) t && strs_eqb (du_path u) p && optz_eqb (du_level u) l
+      && dunits_eqb a' b'
+  | _, _ => false
+  end.
+
+Definition docx_case (c : docx * list (Z * str * list str * option Z)) : bool :=
+  dunits_eqb (docx_units (fst c)) (snd c).
